@@ -197,7 +197,12 @@ func c15xy(c *fw.Ctx, idx int) {
 		b = b[:n:n]
 		b[0], b[1] = p[0], p[1]
 		if n == 3 {
+			// a third ordinate the planar functions have no business with: NaN, or a
+			// number that differs from argument to argument
 			b[2] = math.NaN()
+			if r.Bool() {
+				b[2] = float64(r.Range(-9, 9))
+			}
 		}
 		for i := 0; i < 2; i++ {
 			if negZero && b[i] == 0 && r.Bool() {
@@ -362,6 +367,125 @@ var (
 
 // c15LineBuf is the coordinate buffer every point-to-linestring case writes its line into.
 var c15LineBuf [20*4 + 3*4]float64
+
+// (c) long linestrings: hundreds to thousands of vertices, where an implementation
+// may switch to blocks, envelopes, warm starts or caches.  The same buffer holds
+// one line after the other, in different strides but equally long as a flat array.
+func c15Long(c *fw.Ctx, idx int) {
+	r := c.R
+	g := []int{1 << 10, 1 << 16, 1 << 20}[r.Intn(3)]
+	// flat length: a multiple of 12, so that it is a whole line in strides 2, 3 and 4
+	var L int
+	switch r.Intn(4) {
+	case 0:
+		L = 12 * r.Range(43, 100) // 258..600 XY vertices
+	case 1:
+		L = 12 * r.Range(170, 260) // around 1024 XY vertices
+	case 2:
+		L = 12 * []int{128, 171, 342, 683, 256, 512}[r.Intn(6)] // powers of two in one stride or another
+	default:
+		L = 12 * r.Range(100, 1000)
+	}
+	strides := r.Perm(3)
+	for _, si := range strides {
+		stride := si + 2
+		layout := []geom.Layout{geom.XY, geom.XYZ, geom.XYZM}[si]
+		n := L / stride
+		flat := c15LongBuf[:L:L]
+		xs, ys := make([]float64, n), make([]float64, n)
+		walk := r.Intn(3)
+		x, y := rint(r, g), rint(r, g)
+		step := g/64 + 2
+		for i := 0; i < n; i++ {
+			switch walk {
+			case 0: // uniform
+				x, y = rint(r, g), rint(r, g)
+			case 1: // random walk
+				x += rint(r, step)
+				y += rint(r, step)
+			default: // long sweeps with an occasional far jump
+				if r.Chance(1, 40) {
+					x, y = rint(r, g), rint(r, g)
+				} else {
+					x += float64(r.Range(0, step))
+					y += rint(r, step/4+1)
+				}
+			}
+			xs[i], ys[i] = x, y
+			flat[i*stride], flat[i*stride+1] = x, y
+			for k := 2; k < stride; k++ {
+				flat[i*stride+k] = float64(r.Range(-99, 99))
+			}
+		}
+		// the query point: anywhere, or next to a random vertex or a random segment's middle
+		var p [2]float64
+		switch r.Intn(3) {
+		case 0:
+			p = [2]float64{rint(r, g), rint(r, g)}
+		case 1:
+			i := r.Intn(n)
+			p = [2]float64{xs[i] + float64(r.Range(-3, 3)), ys[i] + float64(r.Range(-3, 3))}
+		default:
+			i := r.Intn(n)
+			j := i
+			if i+1 < n {
+				j = i + 1
+			}
+			p = [2]float64{math.Round((xs[i]+xs[j])/2) + float64(r.Range(-12, 12)), math.Round((ys[i]+ys[j])/2) + float64(r.Range(-12, 12))}
+		}
+		c.SetInput(map[string]any{"dim": 2, "point": fw.Fs(p[:]), "stride": stride, "vertices": n, "grid": g, "linestring_xy_head": fw.Fs(flat[:min(len(flat), 60)]), "note": "full line regenerated from the seed and case index"})
+		// oracle: float pre-selection of the segments that can be nearest, exact arithmetic on those
+		d2f := func(i int) float64 {
+			ax, ay, bx, by := xs[i], ys[i], xs[i+1], ys[i+1]
+			dx, dy := bx-ax, by-ay
+			l2 := dx*dx + dy*dy
+			t := 0.0
+			if l2 > 0 {
+				t = ((p[0]-ax)*dx + (p[1]-ay)*dy) / l2
+				t = math.Max(0, math.Min(1, t))
+			}
+			ex, ey := p[0]-(ax+t*dx), p[1]-(ay+t*dy)
+			return ex*ex + ey*ey
+		}
+		ep := exact.Pt(p[0], p[1])
+		var best *big.Rat
+		if n == 1 {
+			best = exact.Dist2(ep, exact.Pt(xs[0], ys[0]))
+		} else {
+			minf := math.Inf(1)
+			for i := 0; i+1 < n; i++ {
+				if d := d2f(i); d < minf {
+					minf = d
+				}
+			}
+			lim := minf*(1+1e-6) + 1e-6
+			for i := 0; i+1 < n; i++ {
+				if d2f(i) <= lim {
+					d := exact.PointSegDist2(ep, exact.Pt(xs[i], ys[i]), exact.Pt(xs[i+1], ys[i+1]))
+					if best == nil || d.Cmp(best) < 0 {
+						best = d
+					}
+				}
+			}
+		}
+		var got float64
+		if c.Guard("panic", func() { got = xy.DistanceFromPointToLineString(layout, geom.Coord{p[0], p[1]}, flat) }) {
+			return
+		}
+		c.Count(fmt.Sprintf("long_lines_stride_%d", stride))
+		if n >= 1024 {
+			c.Count("long_lines_of_1024_or_more_vertices")
+		}
+		c.Distinct(fmt.Sprintf("long/%d/%d", stride, n))
+		maxv := []float64{p[0], p[1]}
+		maxv = append(append(maxv, xs...), ys...)
+		if !c15Judge(c, "xy.DistanceFromPointToLineString", got, best, c15Tol(maxv...)) {
+			return
+		}
+	}
+}
+
+var c15LongBuf [12 * 1000]float64
 
 // 3D
 func c15xyz(c *fw.Ctx, idx int) {
@@ -626,6 +750,7 @@ func init() {
 		Classes: []fw.Class{
 			{Name: "xy", Quick: 100000, Thorough: 3000000, Run: c15xy},
 			{Name: "xyz", Quick: 150000, Thorough: 5000000, Run: c15xyz},
+			{Name: "long-linestrings", Quick: 4000, Thorough: 150000, Run: c15Long},
 		},
 		Require: []string{"xy_first-degenerate", "xy_second-degenerate", "xy_both-degenerate", "xy_touching_or_crossing", "xyz_first-degenerate", "xyz_second-degenerate", "xyz_both-degenerate", "xyz_parallel", "xyz_collinear", "xyz_crossing", "xyz_touching-endpoint", "xyz_t-touch", "xyz_skew-both-outside", "xyz_both_parameters_outside", "xyz_skew-interior", "exact_distance_zero"},
 	})
